@@ -637,4 +637,18 @@ theorem sgr_only_rejects :
     ¬ SgrOnly [27, 91, 49, 109, 27, 91, 50, 67] {} ∧ ¬ SgrOnly [27, 91, 49] {} := by
   refine ⟨by decide, by decide, by decide, by decide⟩
 
+/-- Text drawn between pen requests (no ESC in it) reaches the terminal in ground state and changes nothing the pen is about:
+    what the harness's `print` step demands of the implementation's bytes. -/
+theorem print_keeps_attrs (text : List Byte) (h : ∀ b ∈ text, b ≠ 27) (vt : VT) (hg : vt.st = .ground) : run text vt = vt := by
+  induction text with
+  | nil => rfl
+  | cons b bs ih =>
+    have hb : b ≠ 27 := h b (by simp)
+    have hf : feed vt b = vt := by
+      unfold feed
+      rw [hg]
+      simp [hb]
+    have := ih (fun x hx => h x (by simp [hx]))
+    simpa [run, hf] using this
+
 end Tickit.Props.C10
